@@ -97,11 +97,13 @@ def scenario(dt=0.1):
     return Scenario(dt, ScenarioID())
 
 
-def network(lanelets=(), signs=(), lights=(), intersections=()):
+def network(lanelets=(), signs=(), lights=(), intersections=(), deferred_index=False):
+    """deferred_index: all lanelets but the first are added with the public option rtree=False (the spatial index is
+    not rebuilt, it knows the first lanelet only)."""
     from commonroad.scenario.lanelet import LaneletNetwork
     net = LaneletNetwork()
-    for la in lanelets:
-        net.add_lanelet(la)
+    for n, la in enumerate(lanelets):
+        net.add_lanelet(la, rtree=not (deferred_index and n > 0))
     for s in signs:
         net.add_traffic_sign(s, set())
     for tl in lights:
@@ -282,3 +284,36 @@ def custom_pm_state(t, position, vx, vy):
     """CustomState with position and velocity components but no orientation."""
     from commonroad.scenario.state import CustomState
     return CustomState(time_step=t, position=np.array(position, dtype=float), velocity=float(vx), velocity_y=float(vy))
+
+
+def state_by_class(name, time_step, position=None, orientation=None, velocity=None, velocity_y=None):
+    """A state of the named class with the given attributes (others at harmless defaults).  name: initial, ks, kst, st,
+    std, mb, pm, extpm, lateral, custom.  orientation: float or (lo, hi) -> AngleInterval; velocity/velocity_y: float or
+    (lo, hi) -> Interval; position: (x, y) or a Shape; time_step: int or (lo, hi) -> Interval.  Attributes passed as None
+    are not set (custom: not even added)."""
+    from commonroad.common.util import AngleInterval, Interval
+    from commonroad.geometry.shape import Shape
+    from commonroad.scenario import state as S
+    kw = {"time_step": Interval(*time_step) if isinstance(time_step, tuple) else time_step}
+    if position is not None:
+        kw["position"] = position if isinstance(position, Shape) else np.array(position, dtype=float)
+    if orientation is not None:
+        kw["orientation"] = AngleInterval(float(orientation[0]), float(orientation[1])) \
+            if isinstance(orientation, tuple) else float(orientation)
+    for k, v in (("velocity", velocity), ("velocity_y", velocity_y)):
+        if v is not None:
+            kw[k] = Interval(float(v[0]), float(v[1])) if isinstance(v, tuple) else float(v)
+    goal = isinstance(time_step, tuple)          # goal states may only carry time_step, position, velocity, orientation
+    extra = {"initial": {"acceleration": 0.0, "yaw_rate": 0.0, "slip_angle": 0.0}, "ks": {"steering_angle": 0.0},
+             "kst": {"steering_angle": 0.0, "hitch_angle": 0.0},
+             "st": {"steering_angle": 0.0, "slip_angle": 0.0, "yaw_rate": 0.0},
+             "std": {"steering_angle": 0.0, "slip_angle": 0.0, "yaw_rate": 0.0, "front_wheel_angular_speed": 0.0,
+                     "rear_wheel_angular_speed": 0.0},
+             "mb": {"steering_angle": 0.0, "yaw_rate": 0.0}, "pm": {}, "extpm": {"acceleration": 0.0},
+             "lateral": {"lateral_position": 1.0, "curvature": 0.0, "curvature_rate": 0.0}, "custom": {}}[name]
+    if not goal:
+        kw.update(extra)
+    cls = {"initial": S.InitialState, "ks": S.KSState, "kst": S.KSTState, "st": S.STState, "std": S.STDState,
+           "mb": S.MBState, "pm": S.PMState, "extpm": S.ExtendedPMState, "lateral": S.LateralState,
+           "custom": S.CustomState}[name]
+    return cls(**kw)
